@@ -17,7 +17,7 @@ def _ast(name, atoms, nodes, syms, strlen, count_from=0, quants="full", groups=1
 QUICK = [
     dict(name="known-defect-witnesses", driver=D, args=["--space", "known", "--case-timeout", 120]),
     dict(name="malformed-catalogue+badquant-n3", driver=D, args=["--space", "malformed", "--nodes", 3, "--case-timeout", 120]),
-    _ast("ast-full-n3-len4", "full", 3, "full", 4),
+    _ast("ast-full-n3-len4", "full", 3, "full", 4, extra=["--xopts", "X,XFH"]),
     _ast("ast-small-n4-len4", "small", 4, "abc", 4, count_from=4),
     _ast("ast-tiny-n5-len4", "tiny", 5, "abc", 4, count_from=5, quants="mini", groups=0),
     dict(name="flags-ismx-n3-len3", driver=D, args=["--space", "flags", "--nodes", 3, "--strlen", 3, "--fh", "-,FH"]),
@@ -73,7 +73,7 @@ SPEC = dict(
     rule="Case = one regular-expression AST (or one catalogue entry). ASTs: EVERY tree with <= N nodes over the stated atom set "
          "(full: a b . [ab] [^a] [a-c-[b]] \\d \\w \\s \\i \\c \\p{Lu} \\P{Lu} \\p{IsBasicLatin} \\. U+10000 <empty>; small: a b . [ab] <empty> (small4: without <empty>); tiny: a b .) and operators "
          "concat, |, group, ? * + {0} {1} {2} {1,} {0,2} {2,3} (mini: ? * + {2,3}; star: ? * +), rendered to concrete syntax. Each AST is compiled in XML-Schema mode "
-         "(options X,XF,XH,XFH; anchored) and in the XPath flavour (options '',F,H,FH; search) and run on EVERY string of length <= L over "
+         "(options X,XFH - small/tiny quick runs also XF,XH; anchored) and in the XPath flavour (options '',F,H,FH; search) and run on EVERY string of length <= L over "
          "{a,b,c,B,1,space,U+10000} (abc: {a,b,c}); verdicts are compared with a Brzozowski-derivative matcher over the AST (itself cross-checked on every "
          "string against a position-set evaluator) and across the option sets. quick: full N<=3 x L<=4 (2465 ASTs x 2801 strings), small N<=4, tiny N<=5 x abc L<=4; "
          "thorough: full N<=4 x L<=3, full N<=3 x L<=5, small4 N<=5, tiny/mini N<=5, tiny/star N<=6. flags: every AST <= N (3/4) nodes over {a,b,B,.,[ab],[^a],^,$} x every subset of "
